@@ -148,6 +148,45 @@ PROPS = {
                         "from arena memory make CBMC explore every Value variant and do not terminate (> 5 min per harness)."),
         "trusted_base": [KANI_TRUST, OS_TRUST, "PoolSet contracts (C12)"],
     },
+    "C03": {
+        "level": "other",
+        "design_ref": "DESIGN.md section 5, C03",
+        "summary": ("Pruning safety, plan-side half: the effect lattice ExprClass::join (least upper bound, all 27 triples), the builtin effect "
+                    "tables (every receiver-mutating, I/O or process builtin is Impure; the two independent tables agree), "
+                    "opt::stmt_effective_class (Impure on an unavailable summary, otherwise joined with every callee's TRANSITIVE class), "
+                    "note_max_reference / declaration_is_runtime_removable, OptimizationPlan membership on sorted vectors, and the runtime "
+                    "gate Runtime::stmt_is_pruned / function_is_pruned (exactly plan membership; nothing without a plan)."),
+        "not_covered": ("soundness of the dataflow itself with respect to execution: liveness fix-point, compute_block_facts, summary "
+                        "propagation (summarize_component), CFG lowering and kills, compute_max_local_reference_stmt and "
+                        "build_optimization_plan's loops (arena-resident tables do not terminate in CBMC). Two genuine liveness defects "
+                        "found by a seeding sub-agent on the unmodified tree are outside these contracts (DESIGN.md section 6)."),
+        "trusted_base": [KANI_TRUST, OS_TRUST],
+    },
+    "C04": {
+        "level": "other",
+        "design_ref": "DESIGN.md section 5, C04",
+        "summary": ("Lexical resolution, lookup mechanisms: after ProgramFacts::finalize_pointer_bindings the sorted pointer tables answer "
+                    "expr_local / stmt_local / string_segment_local with exactly the recorded binding (None for unrecorded keys) for every "
+                    "recording order, and Runtime::lookup_local_env / lookup_local_mut return the innermost scope's latest slot with the "
+                    "queried id for every assignment of ids to a 3x2 scope stack."),
+        "not_covered": ("that resolver ids and the dynamic scope search compose to lexical scoping under recursion (needs an invariant "
+                        "relating the activation stack to the scope tree across eval_function_call), argument evaluation order, "
+                        "Resolver::lookup_var_info / lookup_func and per-block predeclaration, function tables (user_call_callee, function_by_body)."),
+        "trusted_base": [KANI_TRUST, OS_TRUST],
+    },
+    "C06": {
+        "level": "other",
+        "design_ref": "DESIGN.md section 5, C06",
+        "summary": ("No-crash, callee-level half: the built-ins an accepted program can reach with arbitrary arguments are panic-free -- "
+                    "tw::find / maximal_suffix / crit_period / replace verified by Verus for all inputs (bounds, overflow, termination), "
+                    "StringBuiltin::slice on every class of f64 bound -- and Resolver::check_function_body rejects comot/next that could "
+                    "reach the runtime's unreachable!() at a function boundary."),
+        "not_covered": ("the dynamic-type product over the evaluator's dispatch points (operators, conditions, indexes, methods): one call of "
+                        "the 1900-line evaluator with symbolic operand types is outside both verifiers' reach. Genuine defects there are "
+                        "known and demonstrated on the binary (DESIGN.md section 6, D4/D14: e.g. `shout(\"a\" add true)`, `\"abc\".find(5)`, "
+                        "`null or 5`, `do f(x) start return true and x end shout(f(5))` hit unreachable!()) but no obligation of this check decides them."),
+        "trusted_base": [VERUS_TRUST, KANI_TRUST],
+    },
 }
 
 
